@@ -278,7 +278,7 @@ func runProperty(p *Program, prop string, budget int, known map[string]bool, bas
 	// Second attempt for obligations that the baseline tree discharges but that came out undecided
 	// (timeout/unknown, never `sat`): solver run time varies from run to run, and an undecided answer
 	// within the quick budget must not be reported as a violation before a longer attempt has failed too.
-	if base != nil {
+	if base != nil && os.Getenv("GOCV_NO_SECOND_ATTEMPT") == "" {
 		for _, j := range jobs {
 			j := j
 			if j.ob.pre || j.ob.node == nil || j.ob.status == "unsat" || j.ob.status == "sat" || known[j.ob.Name] {
